@@ -22,6 +22,9 @@ import json, os, re
 import vlib, drivers
 
 LEVEL = "exploration"
+META = {"text": 'Every (collective, algorithm) entry that `smpirun --help-coll` lists at run time (186 at this commit, plus gatherv, scatterv, scan, exscan which have no selector) is run with --cfg=smpi/<coll>:<algo> over communicator sizes 1,2,3,4,5,8,16,17, two host layouts, several roots and counts {0,1,2,np-1,np,np+1}, irregular counts / displacements with gaps for the v-variants and the operators SUM PROD MAX MIN BXOR; the receive buffer of every rank (including gaps and guard elements) is compared with the buffer that TLC computes from spec/mpi/MpiColl.tla, the sequential MPI reference; barriers are judged by TLC on the logged entry/exit dates. Exploration level: the space of inputs is sampled (seeded) and the schedules inside an algorithm are the one the simulator picks.',
+        "note": 'Trusted: TLC evaluating MpiColl (the oracle), the driver printing the buffers it got. MPI_INT only; derived datatypes, MAXLOC, user operators, in-place and non-blocking variants are not exercised. An explicit refusal (std::invalid_argument "... can\'t be used with ...", or one error code on every rank with untouched buffers) is counted as declined; crashes, hangs and wrong buffers of 44 (collective, algorithm) entries on edge cases (count 0, np 1, count not a multiple of np, non-contiguous deployments, the automatic selectors) are recorded as known findings keyed on (collective, algorithm, np class).',
+        "technique": 'TLC as result oracle (MpiColl.tla evaluated on every generated case) + differential comparison of every rank\'s buffers over all selectable algorithms under smpirun'}
 DRIVERS = {"mpi_coll": (["mpi_coll.cpp"], "smpi", [])}
 
 MSPEC = os.path.join(vlib.SPEC, "mpi")
@@ -495,7 +498,7 @@ def run(ctx):
         jn, i, kind, what, bufs = x[:5]
         coll, algo, n, lay = jobs[jn]
         c = cases[i]
-        failing[sig] = nfail[sig]
+        failing[sig] = {"n": nfail[sig], "example": re.sub(r"\(/\S*mpi_coll [^|]*\|", "(", what)[:240]}
         ctx.violation("%s algorithm '%s' on %d ranks (%s hosts), root %d, count %d, op %s: %s" %
                       (coll, algo, n, lay, c["root"], c["count"], c["op"], what),
                       files={"cases.txt": case_to_txt(i, c), "case.json": json.dumps(spec_case(c)),
